@@ -243,7 +243,7 @@ Section Samples.
      dict_of_list string_dec (map (fun kv => (key_str (fst kv), fmt (snd kv))) (s_kw s))).
   (* The "dict" branch of ModelObject.from_dict (registered as the parser of {"type": "dict"}) keeps an entry only
      `if value`: a parameter whose value is 0.0 or -0.0 is dropped.  drop0 = true is the pinned code,
-     drop0 = false the code after proposed_fixes/C09-summary-zero-value.diff.  is_zero v <-> v == 0.0 *)
+     drop0 = false the code after proposed_fixes/C08-dict-falsy-constant.diff.  is_zero v <-> v == 0.0 *)
   Context (is_zero : V -> bool).
   Definition json_load (fx drop0 : bool) (j : cell * cell * cell * list (string * cell)) : sample :=
     match j with
